@@ -651,6 +651,19 @@ class Exec(object):
         return self.exc(NameError, st)
 
     def ex_Tuple(self, n, st, fr):
+        if any(isinstance(e, ast.Starred) for e in n.elts):
+            # (*t, a, b): accepted when every starred operand evaluates to a tuple of known length
+            def go(vs, s):
+                out = []
+                for e, v in zip(n.elts, vs):
+                    if isinstance(e, ast.Starred):
+                        if not isinstance(v, VTuple):
+                            raise Unsupported('starred operand that is not a fixed-length tuple at %s:%d' % (fr.relpath, n.lineno))
+                        out.extend(v.items)
+                    else:
+                        out.append(v)
+                return self.val(VTuple(out), s)
+            return self.bind(self.eval_list([e.value if isinstance(e, ast.Starred) else e for e in n.elts], st), go)
         return self.bind(self.eval_list(n.elts, st), lambda vs, s: self.val(VTuple(vs), s))
 
     def ex_List(self, n, st, fr):
